@@ -250,23 +250,26 @@ def hret (m : M) (fr : Frame) (st : List Frame) (e : Entry) (r : Ret) : M :=
   if r.halts then finish m' fr st true
   else { m' with stack := { fr with cur := none } :: st }
 
-/-- 292: take the snapshot and enter the loop -/
-def push (m : M) (et : Nat) (noErr g : Bool) : M :=
+/-- 292: take the snapshot and enter the loop.  `f` identifies the `raiseEvent*` call. -/
+def push (m : M) (f et : Nat) (noErr g : Bool) : M :=
   let snap := m.src.subscribers et
-  { m with stack := { fid := m.nextFid, et, noErr, guarded := g, snap, rest := snap, cur := none } :: m.stack,
-           log := m.log ++ [.begin m.nextFid et snap], nextFid := m.nextFid + 1 }
+  { m with stack := { fid := f, et, noErr, guarded := g, snap, rest := snap, cur := none } :: m.stack,
+           log := m.log ++ [.begin f et snap] }
 
 /-- perform one action on behalf of the innermost running handler (or of top level) -/
 def exec (m : M) (a : Action) (g : Bool) : M :=
   match a with
   | .raise et form noErr =>
-    let start : M := if m.src.isDeclared et then push m et noErr g else { m with pend := some (.exc .revent, g) }
+    -- every `raiseEvent*` call gets the next id, whether or not it gets as far as the dispatch loop
+    let m1 : M := { m with nextFid := m.nextFid + 1 }
+    let start : M := if m.src.isDeclared et then push m1 m.nextFid et noErr g
+                     else { m1 with pend := some (.exc .revent, g) }        -- 285-288
     match form with
     | .inst => start
     | .cls =>
       match m.src.handlers et with              -- 269-272 early-out: no event object is created
-      | none => { m with pend := some (.ok .none, g) }
-      | some [] => { m with pend := some (.ok .none, g) }
+      | none => { m1 with pend := some (.ok .none, g) }
+      | some [] => { m1 with pend := some (.ok .none, g) }
       | some (_ :: _) => start
   | a =>
     let r := doAction m.src a
